@@ -20,14 +20,32 @@ import (
 func init() {
 	props["C04"] = runC04
 	props["C05"] = runC05
-	cmds[401] = func(_ *out, f [][]int) []int {
+	cmds[401] = func(o *out, f [][]int) []int {
 		get := func(i int) string {
 			if i < len(f) {
 				return string(bytesOf(f[i]))
 			}
 			return ""
 		}
-		return intsOf(stun.NewLongTermIntegrity(get(0), get(1), get(2)))
+		// the key handed out belongs to the caller: wiping it (as one does with key material) and deriving it again
+		// gives the same key; the credentials themselves are untouched by that
+		u, re, pw := get(0), get(1), get(2)
+		heapPw := string(append([]byte(nil), pw...)) // a run-time string, not a constant of the binary
+		first := stun.NewLongTermIntegrity(u, re, heapPw)
+		want := append([]byte(nil), first...)
+		for k := range first {
+			first[k] = 0
+		}
+		second := stun.NewLongTermIntegrity(u, re, heapPw)
+		st := stun.NewShortTermIntegrity(heapPw)
+		for k := range st {
+			st[k] ^= 0xFF
+		}
+		st2 := stun.NewShortTermIntegrity(heapPw)
+		if !bytes.Equal(second, want) || heapPw != pw || string(st2) != pw {
+			o.fail("key-shared-between-callers", "401 "+fNums(f[0]...)+" "+fNums(f[1]...)+" "+fNums(f[2]...))
+		}
+		return intsOf(second)
 	}
 }
 
@@ -461,6 +479,38 @@ func runC05(o *out, thorough bool, r *rng, _ []string) map[string]interface{} {
 						break
 					}
 				}
+			}
+		}
+		// a leading type bit flipped in transit, and the receiver checking integrity BEFORE the fingerprint: the
+		// fingerprint still catches it
+		if i%2 == 0 {
+			for _, bit := range []byte{0x80, 0x40} {
+				fl := append([]byte(nil), data...)
+				fl[0] ^= bit
+				dm := new(stun.Message)
+				if stun.Decode(fl, dm) != nil {
+					continue
+				}
+				_ = stun.MessageIntegrity(key).Check(dm)
+				if stun.Fingerprint.Check(dm) == nil || !bytes.Equal(dm.Raw, fl) {
+					o.fail("bit-flip-undetected-after-integrity-check", "701 "+fHex(fl)+" - 7,0 "+fHex(key))
+				}
+			}
+		}
+		// a message WITHOUT a FINGERPRINT, followed after its declared length by eight bytes that would be a correct
+		// one: bytes after the declared length are not attributes
+		if i%2 == 1 {
+			plain := signedMessage(r, key, r.intn(4), r.intn(3), i%4 == 1, false)
+			v := crc32.ChecksumIEEE(func() []byte {
+				c := append([]byte(nil), plain...)
+				l := len(c) - 20 + 8
+				c[2], c[3] = byte(l>>8), byte(l)
+				return c
+			}()) ^ 0x5354554e
+			v2 := crc32.ChecksumIEEE(plain) ^ 0x5354554e
+			for _, vv := range []uint32{v, v2} {
+				tr := append(append([]byte(nil), plain...), 0x80, 0x28, 0, 4, byte(vv>>24), byte(vv>>16), byte(vv>>8), byte(vv))
+				checkCase(o, r, 7, tr, nil, "fingerprint-only-behind-the-declared-length")
 			}
 		}
 		// bytes after the declared length (Decode tolerates them and keeps them in Raw): the verdict follows
